@@ -90,6 +90,9 @@ def reader_is_sound(F, R, helper):
 
 
 def run(F, R, tier):
+    # body readers / `&mut Request` helpers are recognised by their own contracts (reader_is_sound, inline.with_request_helpers)
+    from lib import facts as _facts
+    F = R.F = _facts.raw_view(F)
     R.explanation = (
         "Evaluated constants (100 KiB / 100 MiB), path-restricted provenance of the limit layer chosen in the per-request "
         "service closure (LARGE on the true edge of should_skip_sig, LOW on the false edge, the chosen layer wraps the "
